@@ -852,6 +852,18 @@ class Gen:
         return out
 
 
+    def info_new_cases(self, n):
+        """N cases (round 5): MinidumpInfo::new with subsets of the dump's streams made unreadable"""
+        rng = self.rng
+        types = [3, 4, 5, 6, 7, 14, 15, 16, 24, 0x47670001, 0x47670003, 0x47670004, 0x47670005, 0x47670007, 0x47670009, 0x4767000b]
+        out = ["N", "N 3", "N 7", "N 3 7"] + ["N %d" % t for t in types]
+        out.append("N " + " ".join(str(t) for t in types if t not in (3, 7)))
+        for _ in range(n):
+            k = rng.choice([1, 2, 3, 5, 8])
+            out.append("N " + " ".join(str(rng.choice(types + [3, 7])) for _ in range(k)))
+        self.dist["info_new_cases"] = len(out)
+        return out
+
     def nearby_cases(self, n):
         """B cases (round 5): the NEARBY_REGISTER index of BitFlipDetails::confidence — amd64 crash one flipped bit (12..47) from the
         only mapped page, 0..16 registers within / just outside 4096 bytes of the corrected address (also below the low-address cut-off)"""
@@ -952,7 +964,7 @@ class Gen:
                 k = rng.below(8)
                 if k <= 4 and regions:
                     b, sz = rng.choice(regions)
-                    return (b + max(0, sz - rng.choice([0, 1, 4, 7, 8, 9, 16, sz]))) & M
+                    return (b + max(0, sz - rng.choice([0, 1, 4, 7, 8, 9, 16, sz, sz, sz, sz - w, sz // 2]))) & M
                 if k == 5 and regions:
                     b, sz = rng.choice(regions)
                     return (b + sz + rng.choice([0, 1, 8])) & M
@@ -1162,6 +1174,7 @@ class C03(PropBase):
         cases = g.site_cases(ns)
         cases += g.thread_cases(1500 if tier == "quick" else 20000)
         cases += g.nearby_cases(500 if tier == "quick" else 6000)
+        cases += g.info_new_cases(100 if tier == "quick" else 1000)
         # exhaustive block 1: amd64 instruction bytes at the crashing rip, generated from the opcode / ModRM table —
         # every opcode byte of the one-byte and 0f maps x every ModRM reg field (group opcodes select the operation with
         # it: 80/81/83, c0/c1/d0-d3, f6/f7 /0../7, fe/ff, 0f 00/01/ba/c7 ...) x operand forms, with REX.W and without
@@ -1211,6 +1224,11 @@ class C03(PropBase):
         kind = case[0]
         if kind == "T":
             return self.oracle_threads(case, ans)
+        if kind == "N":
+            # "returns a result or an error": which one is the model's business; a timeout or anything else is a violation
+            if ans == "N ok" or (ans.startswith("N err:") and ans[6:].isalnum()):
+                return None
+            return "process_minidump_with_options neither returned a state nor a ProcessError: " + ans[:100]
         if kind == "B":
             f = ans.split()
             if len(f) != 3 or f[0] != "B" or not f[1].isdigit() or not (f[2] == "-" or (f[2].isdigit() and int(f[2]) < 4)):
@@ -1288,7 +1306,7 @@ class C03(PropBase):
     def nontrivial(self, case, ans):
         if case[0] == "T":
             return ans.startswith("T req=") and "/" in ans
-        if case[0] in "LGSJAIUB":
+        if case[0] in "LGSJAIUBN":
             return not ans.startswith("P;;")
         return " r=ok " in ans and " thr=0 " not in ans
 
